@@ -12,7 +12,6 @@
 -/
 import AITB.Model.ModelState
 import AITB.Model.SamplingModels
-import AITB.Gen.C06Sites
 namespace AITB.MS
 open AITB AITB.Factored AITB.Sampling
 
